@@ -990,6 +990,58 @@ def r11(p, rep):
         raise AnalysisError(f"only {n} Inlined(...) templates recognised in the emitter")
 
 
+def r13(p, rep):
+    rep.rule("C04.R13", "two different values never get the same source-level name through a name hint: hints are distinct by construction (import aliases, the graph's name, constN numbered by the constants table), or a hinted name is used only when no other variable has it yet", "T-TAB over the sites that record a name hint + T-DOM on the statement that honours a hint", floor=3)
+    comp = compile_func(p)
+    inner = [g for g in p.funcs.values() if g is comp or any(a is comp for a in _ancestors(g))]
+    sites = []
+    for g in inner:
+        for c in walk_no_nested(g.node):
+            if isinstance(c, ast.Call) and isinstance(c.func, ast.Attribute) and c.func.attr == "append" and isinstance(c.func.value, ast.Subscript) and isinstance(c.func.value.value, ast.Name) and norm(c.func.value.slice).startswith("id(") and "hint" in c.func.value.value.id and c.args:
+                sites.append((g, c))
+    if len(sites) < 3:
+        raise AnalysisError(f"unrecognised idiom: only {len(sites)} sites record a name hint (`<hints>[id(variable)].append(..)`) in compile()")
+
+    def kind(g, e, depth=0):
+        if isinstance(e, ast.Attribute) and e.attr in ("as_", "import_"):
+            return "import alias"
+        if isinstance(e, ast.Attribute) and e.attr == "name" and "graph" in norm(e.value):
+            return "graph name"
+        if isinstance(e, (ast.JoinedStr, ast.BinOp, ast.Call)) and any(isinstance(x, ast.Call) and isinstance(x.func, ast.Name) and x.func.id == "len" and x.args and isinstance(x.args[0], ast.Name) for x in ast.walk(e)):
+            return "numbered by the size of a table"  # f"const{len(T)}", "const" + str(len(T)), "const{}".format(len(T))
+        if isinstance(e, ast.Name) and depth < 2:
+            defs = [a.value for a in walk_no_nested(g.node) if isinstance(a, ast.Assign) and any(isinstance(t, ast.Name) and t.id == e.id for t in a.targets)]
+            ks = {kind(g, d, depth + 1) for d in defs}
+            if defs and None not in ks and len(ks) == 1:
+                return ks.pop()
+        return None
+
+    free = []
+    for g, c in sites:
+        k = kind(g, c.args[0])
+        key = f"{g.qualname}:hint({norm(c.args[0])[:40]})"
+        if k is not None:
+            rep.ok("C04.R13", key, f"{g.module.rel}:{c.lineno}", f"{k}: distinct by construction")
+        else:
+            free.append((g, c, key))
+    if not free:
+        return
+    # a hint of another origin (e.g. a user-chosen function name): the naming loop must not hand out a name twice
+    net = False
+    for a in walk_no_nested(comp.node):
+        if isinstance(a, ast.Assign) and isinstance(a.value, ast.Subscript) and isinstance(a.value.slice, ast.Constant) and a.value.slice.value == 0 and "hint" in norm(a.value.value):
+            nm = a.targets[0].id if isinstance(a.targets[0], ast.Name) else None
+            for t, pol in common.cfg_of(comp).guards_of_ast(a):
+                for x in ast.walk(t):
+                    if isinstance(x, ast.Compare) and len(x.ops) == 1 and isinstance(x.ops[0], (ast.In, ast.NotIn)) and "hint" in norm(x.left) and isinstance(x.comparators[0], ast.Name):
+                        taken = x.comparators[0].id
+                        adds = [c2 for c2 in ast.walk(comp.node) if isinstance(c2, ast.Call) and norm(c2.func) == f"{taken}.add" and c2.args and isinstance(c2.args[0], ast.Name) and c2.args[0].id == nm]
+                        if adds:
+                            net = True
+    for g, c, key in free:
+        rep.add("C04.R13", key, f"{g.module.rel}:{c.lineno}", net, f"`{norm(c.args[0])[:50]}` is not distinct by construction, but a hinted name is only used when no other variable has been given it" if net else f"`{norm(c.args[0])[:50]}` records a name hint that is not distinct by construction (a name chosen outside the compiler), and the naming loop uses a hint without asking whether the name is already taken: two live values can end up under one name (a function called `op` or `np` shadows the graph / the import; the text returned with graph=True no longer computes the graph)")
+
+
 def r12(p, rep):
     rep.rule("C04.R12", "code that takes a slice apart handles all three of start / stop / step (a step that is printed but not reported as an input is invisible to the liveness analysis)", "T-SIB over the fields of slice", floor=2)
     n = 0
@@ -1016,6 +1068,7 @@ def run(p, rep, tier):
     r10(p, rep)
     r11(p, rep)
     r12(p, rep)
+    r13(p, rep)
     rep.rule("C06.R1", "IR nodes compare every field (graph equality drives inline decisions and pattern matching)", "T-SIB (__init__ vs __eq__)", floor=30)
     c06.r1(p, rep)
     if tier == "thorough":
